@@ -529,7 +529,31 @@ func checkProgress(c *Check, handle *ssa.Function) {
 				"a stop is left without continuing the tracee and without a verdict (the run hangs while the program is alive): returns at "+strings.Join(uniq(bad), ", "))
 		}
 	}
-	c.Expect("3/progress", 8)
+	// the trap context names the task that stopped: its Pid is written once, where the context is built (a later
+	// write redirects the skip / register requests to a task that is not stopped: ESRCH, and the stopped task is
+	// never resumed)
+	nPid := 0
+	var badPid []string
+	for _, fn := range p.PkgFuncs("ptracer") {
+		for _, b := range fn.Blocks {
+			for _, in := range b.Instrs {
+				st, ok := in.(*ssa.Store)
+				if !ok {
+					continue
+				}
+				fa, ok := st.Addr.(*ssa.FieldAddr)
+				if !ok || fieldName(fa.X.Type(), fa.Field) != "Pid" || !strings.HasSuffix(derefType(fa.X.Type()).String(), "ptracer.Context") {
+					continue
+				}
+				nPid++
+				if !isFreshObject(fa.X, 0) {
+					badPid = append(badPid, fn.Name()+"@"+p.Pos(st.Pos()))
+				}
+			}
+		}
+	}
+	c.Cond(nPid >= 1 && len(badPid) == 0, "3/progress", "ptracer.Context.Pid:single-writer", "ptracer/", "the context's pid is set only where the context is built", "the pid of an existing trap context is overwritten ("+strings.Join(badPid, ", ")+"): requests for this stop go to another task")
+	c.Expect("3/progress", 9)
 }
 
 // checkLoopsInS: every loop in S is bounded.
